@@ -209,6 +209,11 @@ impl GenCtx {
                     let first = if round == 0 { Blk::Same } else { Blk::Next };
                     script.push(Plan::PayFunding { vi, by: STRANGER, block: first });
                     for who in [Who::Id(liq), Who::Holder(victim), Who::Bystander(liq, victim)] {
+                        if round == 0 && who == Who::Bystander(liq, victim) && tx.height % 2 == 0 {
+                            // a bystander trades his position to exactly flat in the liquidation block (a stored
+                            // record of size zero remains): he has acted in this block and may not act again
+                            script.push(Plan::TraderOp { vi, who, op: TOp::FlatReverse, block: Blk::Same });
+                        }
                         script.push(Plan::TraderOp { vi, who, op: TOp::OpenSame, block: Blk::Same });
                         if round == 0 && who == Who::Id(liq) {
                             // the liquidator, whose own position was just updated in this block, liquidates again
@@ -1428,6 +1433,28 @@ fn start_pump(w: &World, r: &mut Rng, g: &mut GenCtx, vis: &[VInfo], ps: &[PosIn
     true
 }
 
+/// registry at capacity (deployments with four markets): fill the registry to three, try the fourth (refused),
+/// swap one out, try the removed one again (refused), trade on the newly registered market, shut everything down
+fn start_capacity(g: &mut GenCtx, vis: &[VInfo]) -> bool {
+    if vis.len() < 4 {
+        return false;
+    }
+    for v in vis.iter().take(3).filter(|v| !v.registered) {
+        g.plan.push_back(Plan::IfAdd { vi: v.idx });
+    }
+    g.plan.push_back(Plan::IfAdd { vi: 3 });
+    g.plan.push_back(Plan::IfRm { vi: 0 });
+    g.plan.push_back(Plan::IfAdd { vi: 3 });
+    g.plan.push_back(Plan::IfAdd { vi: 0 });
+    g.plan.push_back(Plan::TraderOp { vi: 3, who: Who::Id(102), op: TOp::OpenSame, block: Blk::Free });
+    g.plan.push_back(Plan::TraderOp { vi: 0, who: Who::Id(102), op: TOp::OpenSame, block: Blk::Free });
+    g.plan.push_back(Plan::IfRm { vi: 3 });
+    g.plan.push_back(Plan::IfAdd { vi: 0 });
+    g.plan.push_back(Plan::IfAdd { vi: 3 });
+    g.plan.push_back(Plan::Shutdown);
+    true
+}
+
 /// `ifshutdown` by the owner while one registered vAMM is already closed and another is open
 fn start_shutdown(r: &mut Rng, g: &mut GenCtx, vis: &[VInfo]) -> bool {
     let reg: Vec<&VInfo> = vis.iter().filter(|v| v.registered).collect();
@@ -1809,6 +1836,10 @@ pub fn gen_step(w: &World, r: &mut Rng, g: &mut GenCtx, k: u64, stats: &mut Stat
     let mut dr: Option<Draft> = None;
     for name in g.pending_stats.drain(..) {
         stats.count("campaign", &name);
+    }
+    if k == 2 && g.plan.is_empty() && vis.len() >= 4 && g.mode != Mode::Twin {
+        let started = start_capacity(g, &vis);
+        stats.count("campaign", if started { "registry_capacity" } else { "registry_capacity_not_applicable" });
     }
     if let Some(at) = g.shutdown_at {
         if k >= at && g.plan.is_empty() {
